@@ -170,8 +170,21 @@ package vm
 // the run it was started for is still the one in progress (KF-35 fixed).
 //@ func start$1
 //@ props C07
+//@ modcomps H_vm_VirtualMachine_halt
+//@ assumeframe
 //@ requires forallA(m, *int, !ghost("lock.w", bool, m))
 //@ storeguard[C07.watcher.samerun] VirtualMachine.halt: ghost("lock.w", bool, &vm.runMutex) && vm.running && vm.startCount == run
+
+// start: every successful start is a new run (startCount grows by one - the number the watcher compares with),
+// marks the VM running and clears halt before the watcher exists.
+//@ func (*VirtualMachine).start
+//@ props C07
+//@ requires vm != nil && ctx != nil
+//@ requires !ghost("lock.w", bool, &vm.runMutex)
+//@ storeguard[C07.start.halt] VirtualMachine.halt: value == 0
+//@ ensures[C07.start.newrun] result == nil ==> vm.startCount == old(vm.startCount) + 1 && vm.running
+//@ ensures[C07.start.refused] result != nil ==> old(vm.running) && vm.startCount == old(vm.startCount)
+//@ ensures[C07.start.unlocked] !ghost("lock.w", bool, &vm.runMutex)
 
 // resetForNewCode leaves no trace of an earlier run in the registers and tables of the VM.
 //@ func (*VirtualMachine).resetForNewCode
